@@ -8,9 +8,10 @@ behind the `vm` op lines that are compared with the compiled code.
 -/
 import WuffsVerif.Model.ProbeVM
 import WuffsVerif.Props.C08IO
+import WuffsVerif.Props.C08Call
 
 namespace WuffsVerif.Props.C08VM
-open WuffsVerif.IOBuf WuffsVerif.ProbeVM WuffsVerif.Props.C08IO
+open WuffsVerif.IOBuf WuffsVerif.ProbeVM WuffsVerif.Props.C08IO WuffsVerif.Props.C08Call
 
 /-- Both buffers are inside their invariants. -/
 structure Inv2 (sb db : Buf) (r : Run) : Prop where
@@ -62,7 +63,87 @@ theorem setScratch_inv (sb db : Buf) (r : Run) (v : Nat) (h : Inv2 sb db r) :
 theorem setPc_inv (sb db : Buf) (r : Run) (v : Nat) (h : Inv2 sb db r) :
     Inv2 sb db { r with pc := v } := ⟨h.src, h.dst⟩
 
-theorem stepOp_inv (sb db : Buf) (op : Nat) (r : Run) (h : Inv2 sb db r) :
+/-! ### the private helper that is handed both buffers (`helperCall`) -/
+
+theorem finalSave_load (w : Bool) (b : Buf) : finalSave (load w b) = b := by
+  unfold finalSave load
+  cases b with
+  | mk mem len ri wi pos closed hasPtr =>
+    cases hasPtr <;> cases w <;> cases closed <;> rfl
+
+theorem load_b (w : Bool) (b : Buf) : (load w b).b = b := by
+  unfold load; cases b.hasPtr <;> cases w <;> simp
+
+/-- Save and reload without anything in between (the callee moved nothing). -/
+theorem saveReload_RInv (b0 : Buf) (hv : b0.valid) (s : St) (h : RInv b0 s) :
+    RInv b0 (loadAfterCall s (saveForCall s)) := by
+  have := execCall_RInv b0 hv s (fun b => callIO false b []) (leaf_ReaderOK [] .nil) h
+  simpa [execCall, callIO, runI, finalSave_load] using this
+
+theorem saveReload_WInv (b0 : Buf) (hv : b0.valid) (s : St) (h : WInv b0 s) :
+    WInv b0 (loadAfterCall s (saveForCall s)) := by
+  obtain ⟨hw, hml, hbelow, hri, hwi, hhp, hcl, hsync, hio1, hlo, hhi, hcap, hlenle, hch⟩ := h
+  obtain ⟨h1, h2, h3, h4⟩ := hv
+  unfold loadAfterCall saveForCall
+  simp only [hw, ↓reduceIte]
+  exact {
+    w := rfl
+    memlen := hml
+    below := hbelow
+    ri := hri
+    wi := by
+      dsimp only
+      intro hp
+      rw [hhp] at hp
+      have := h4 hp
+      omega
+    hp := hhp
+    closed := hcl
+    sync := hsync
+    io1 := hio1
+    lo := hlo
+    hi := hhi
+    cap := hcap
+    lenle := hlenle
+    chain := hch }
+
+/-- A closed destination offers the helper no room. -/
+theorem closed_no_room (b : Buf) (hc : b.closed = true) : (load true b).io2 - (load true b).iop = 0 := by
+  unfold load; cases b.hasPtr <;> simp [hc]
+
+theorem helperCall_inv (sb db : Buf) (hs : sb.valid) (hd : db.valid) (r : Run) (h : Inv2 sb db r) :
+    Inv2 sb db (helperCall r) := by
+  unfold helperCall copyFromReader
+  dsimp only
+  split
+  · -- nothing copied
+    simp only [finalSave_load]
+    exact ⟨saveReload_RInv sb hs _ h.src, saveReload_WInv db hd _ h.dst⟩
+  · rename_i hk
+    -- something was copied, so the destination is open
+    have hopen : db.closed = false := by
+      cases hc : db.closed
+      · rfl
+      · exfalso
+        apply hk
+        have hcl : (saveForCall r.dst).closed = true := by
+          simp [saveForCall, h.dst.w, h.dst.closed, hc]
+        have := closed_no_room _ hcl
+        simp [this]
+    refine ⟨?_, ?_⟩
+    · have := execCall_RInv sb hs r.src
+        (fun b => callIO false b [.rd (min 2 (min ((load false (saveForCall r.src)).io2 - (load false (saveForCall r.src)).iop)
+          ((load true (saveForCall r.dst)).io2 - (load true (saveForCall r.dst)).iop)))])
+        (leaf_ReaderOK _ (.simple _ _ (by intro l; simp) (by simp) .nil)) h.src
+      simpa [execCall, callIO, runI] using this
+    · have := execCall_WInv db hd hopen r.dst
+        (fun b => callIO true b [.wr (List.take (min 2 (min ((load false (saveForCall r.src)).io2 - (load false (saveForCall r.src)).iop)
+          ((load true (saveForCall r.dst)).io2 - (load true (saveForCall r.dst)).iop)))
+          (List.drop (load false (saveForCall r.src)).iop (load false (saveForCall r.src)).b.mem))])
+        (leaf_WriterOK _ (.simple _ _ (by intro l; simp) (by simp) .nil)) h.dst
+      simpa [execCall, callIO, runI] using this
+
+theorem stepOp_inv (sb db : Buf) (hs : sb.valid) (hd : db.valid) (op : Nat) (r : Run) (h : Inv2 sb db r) :
     Inv2 sb db (stepOp op r).1 := by
   unfold stepOp
   split
@@ -87,9 +168,13 @@ theorem stepOp_inv (sb db : Buf) (op : Nat) (r : Run) (h : Inv2 sb db r) :
   · dsimp only
     exact dstExec_inv sb db _ _ (copyFromReader_inv sb db 8 _ (dstExec_inv sb db r _ h))
   · exact copyFromReader_inv sb db 3 r h
+  · exact helperCall_inv sb db hs hd r h
+  · dsimp only
+    exact srcExec_inv sb db _ _ (helperCall_inv sb db hs hd _ (srcExec_inv sb db r _ h))
   · exact h
 
-theorem loop_inv (sb db : Buf) (prog : List UInt8) (fuel : Nat) (r : Run) (h : Inv2 sb db r) :
+theorem loop_inv (sb db : Buf) (hs : sb.valid) (hd : db.valid) (prog : List UInt8) (fuel : Nat) (r : Run)
+    (h : Inv2 sb db r) :
     Inv2 sb db (loop prog fuel r).1 := by
   induction fuel generalizing r with
   | zero => exact h
@@ -98,7 +183,7 @@ theorem loop_inv (sb db : Buf) (prog : List UInt8) (fuel : Nat) (r : Run) (h : I
     split
     · exact h
     · rename_i op _
-      have hs := stepOp_inv sb db op.toNat _ (setPc_inv sb db r (r.pc + 1) h)
+      have hs := stepOp_inv sb db hs hd op.toNat _ (setPc_inv sb db r (r.pc + 1) h)
       split
       · rename_i r' e heq
         rw [heq] at hs; exact hs
@@ -129,7 +214,7 @@ theorem vm_contract (prog : List UInt8) (vm : VM) (sb db : Buf) (hs : sb.valid) 
     unfold bodyStage
     split
     · exact hx
-    · exact loop_inv sb db prog _ x.1 hx
+    · exact loop_inv sb db hs hd prog _ x.1 hx
   have h3 : ∀ x : Run × Exit, Inv2 sb db x.1 →
       (finishStage vm x).src = finalSave x.1.src ∧ (finishStage vm x).dst = finalSave x.1.dst := by
     intro x _
